@@ -17,6 +17,8 @@ Definition nbsum (l : list Q) : list Q :=
   let a := map qabs l in
   zip3 (fun x y z => Qred (x + y + z)) (0 :: a) a (tl a ++ [0]).
 
+Definition abssum0 (l : list Q) : Q := fold_right (fun x a => Qred (qabs x + a)) 0 l.
+
 Definition opt_eqb (a b : option nat) : bool :=
   match a, b with
   | Some x, Some y => Nat.eqb x y
@@ -31,6 +33,41 @@ Definition adjust_tie (rt : Q) (s : state Qops) (chk : bool) : bool :=
   let s1 := if added then addClasses Qops s (obins Qops s / 4) else s in
   adaptive Qops s1 && negb (maxBins Qops s1 <? bins Qops s1)%nat && chk &&
   near_tie rt (10 * nthT Qops (bounds Qops s1) 0) (last (bounds Qops s1) 0).
+
+(* Scale of a re-meshed population: a boundary of the new grid that coincides with a boundary of the old
+   one up to rounding (the new maximum 10*min is a ROUNDED product in the implementation and exact in
+   the model; a requested cMax may be an old boundary) lets an old class share a sliver of relative width
+   ~2^-53 with a new class in one arithmetic and not in the other.  Every old class that touches the new
+   class within tolerance therefore belongs to the magnitudes the new population is compared against. *)
+Definition touch_scale (rt : Q) (oldB oldP newB : list Q) (factor : Q) : list Q :=
+  let olds := combine (pairs Qops oldB) oldP in
+  map (fun c' =>
+         let d := Qred (rt * qabs (snd c')) in
+         Qred (factor *
+           fold_right (fun cp a =>
+                         if Qle_bool (fst (fst cp) - d) (snd c') && Qle_bool (fst c') (snd (fst cp) + d)
+                         then Qred (qabs (snd cp) + a) else a) 0 olds))
+      (pairs Qops newB).
+
+Fixpoint addl (a b : list Q) : list Q :=
+  match a, b with
+  | x :: a', y :: b' => Qred (x + y) :: addl a' b'
+  | _, [] => a
+  | [], _ => []
+  end.
+
+Definition psd_scale (rt : Q) (s s' : state Qops) (o : op Qops) : list Q :=
+  let base := nbsum (psd Qops s') in
+  let remesh := match o with
+                | Change _ _ _ _ false => true
+                | Adjust _ _ => true
+                | _ => false
+                end in
+  if remesh then
+    let tot := abssum0 (psd Qops s) in
+    let factor := if Qeq_bool tot 0 then 1 else Qred (1 + abssum0 (psd Qops s') / tot) in
+    addl base (touch_scale rt (bounds Qops s) (psd Qops s) (bounds Qops s') factor)
+  else base.
 
 (* result: (near tie?, min, max, bins equal?, PSD, bounds, centres, backup PSD, backup bounds,
             return value and raised flag equal?, model's class count) *)
@@ -50,7 +87,7 @@ Definition check08 (rt : Q) (s : state Qops) (o : op Qops) (p : post) :=
    cmp1 rt (p_min p) (smin Qops s'),
    cmp1 rt (p_max p) (smax Qops s'),
    Nat.eqb (p_bins p) (bins Qops s'),
-   cmpl rt (p_psd p) (psd Qops s') (nbsum (psd Qops s')),
+   cmpl rt (p_psd p) (psd Qops s') (psd_scale (rt * 64) s s' o),
    cmpl_rel rt (p_bounds p) (bounds Qops s'),
    cmpl_rel rt (p_size p) (size Qops s'),
    cmpl rt (p_ppsd p) (prevPSD Qops s') (nbsum (prevPSD Qops s')),
